@@ -170,6 +170,8 @@ func c18Selects(thorough bool) []string {
 	for _, i1 := range items {
 		for _, i2 := range items {
 			out = append(out, fmt.Sprintf("SELECT %s, %s FROM t", i1, i2))
+			// (the same pair over no rows at all: an empty table, a WHERE that nothing passes)
+			out = append(out, fmt.Sprintf("SELECT %s, %s FROM e", i1, i2), fmt.Sprintf("SELECT %s, %s FROM t WHERE a > 1000", i1, i2))
 			for _, g := range []string{"a", "c", "d", "x", "t.a", "nosuch", "a, c", "b"} {
 				if strings.HasPrefix(i1, "count") || strings.HasPrefix(i1, "avg") || strings.HasPrefix(i2, "count") || strings.HasPrefix(i2, "avg") || thorough {
 					out = append(out, fmt.Sprintf("SELECT %s, %s FROM t GROUP BY %s", i1, i2, g))
